@@ -92,6 +92,12 @@ def diamondP(menu=(1, 2), end=5, order=("A", "B", "P", "C"), ch=()):
     return dict(family="diamondP", comps=[T("A", menu, outs=["o"]), T("B", menu, outs=["o"]), P("P", ins=("i", "j")), T("C", menu, ins=["i"])], links=[L("A", "o", "P", "i", ch), L("B", "o", "P", "j"), L("P", "o", "C", "i")], order=list(order), end=end)
 
 
+def diamondPP(ch_first, ch_second, menu=(1, 2), end=5, order=("A", "H", "P", "Q", "B")):
+    """five components: A -> H (pull-based, two outputs) -> P / Q (pull-based) -> B (two inputs); the first input of B may be delayed"""
+    return dict(family="diamondPP", comps=[T("A", menu, outs=["o"]), P("H", outs=("o0", "o1")), P("P"), P("Q"), T("B", menu, ins=["i0", "i1"])],
+                links=[L("A", "o", "H", "i"), L("H", "o0", "P", "i"), L("H", "o1", "Q", "i"), L("P", "o", "B", "i0", ch_first), L("Q", "o", "B", "i1", ch_second)], order=list(order), end=end)
+
+
 def shareP(menu=(1, 2), end=5, order=("A", "P", "B", "C")):
     """one pull-based component read by two time-stepped consumers"""
     return dict(family="shareP", comps=[T("A", menu, outs=["o"]), P("P"), T("B", menu, ins=["i"]), T("C", menu, ins=["i"])], links=[L("A", "o", "P", "i"), L("P", "o", "B", "i"), L("P", "o", "C", "i")], order=list(order), end=end)
